@@ -1,6 +1,8 @@
 ------------------------------ MODULE AndOrOps ------------------------------
 (* Operators for the AND / OR exceedance contour search (virocon.contours.AndContour,   *)
-(* OrContour).  Exceedance is an integer count out of n sample points; alpha = a/b and   *)
+(* OrContour).  Exceedance is an integer count out of n sample points - the points that  *)
+(* STRICTLY exceed the searched point (x_i > vx and / or y_i > vy; an observation equal to *)
+(* a coordinate of the point does not exceed it); alpha = a/b and                          *)
 (* allowed_error = en/ed are rationals, so the tolerance test is exact integer           *)
 (* arithmetic:  |count/n - a/b| / (a/b) <= en/ed   <=>   |count*b - a*n| * ed <= en*a*n. *)
 EXTENDS Integers, Sequences, FiniteSets, Fix
